@@ -314,7 +314,9 @@ def check(pid, tier, seed, work, t0):
             continue
         print("KNOWN-FINDING: property=%s %s (%d traces, e.g. %s): %s" % (pid, kid, len(sids), sids[0], what))
     for name, sid, tags, o in violations[:25]:
-        scn_of = (o or {}).get("scn") or scenario_by_sid(scn_files[name], sid)
+        # (history / conc: the input line is the whole history or mix, the observation only carries one RPC of it)
+        scn_of = scenario_by_sid(scn_files[name], sid) if CORPORA[name]["family"] in ("history", "conc") else None
+        scn_of = scn_of or (o or {}).get("scn") or scenario_by_sid(scn_files[name], sid)
         path = vlib.save_replay(pid, sid, dict(property=pid, corpus=name, sid=sid, tags=tags, seed=seed,
                                                scenario=scn_of, observed={k: v for k, v in (o or {}).items() if k != "scn"}))
         print("VIOLATION property=%s replay=%s tags=%s" % (pid, path, ",".join(tags)))
@@ -359,6 +361,12 @@ def replay(pid, path, work, seed):
     corpus = CORPORA[rp["corpus"]]
     binary = vlib.build_harness(work)
     scn = rp["scenario"]
+    if corpus["family"] in ("history", "conc") and "seed" not in scn:
+        # the harness derives a line's seed from the run seed and the line index (sid = <corpus>-<index+1>)
+        try:
+            scn["seed"] = int(rp.get("seed", seed)) * 1000003 + int(rp["sid"].rsplit("-", 1)[1]) - 1
+        except Exception:
+            pass
     scn_file = os.path.join(work, "replay.scn.ndjson")
     trace_file = os.path.join(work, "replay.trace.ndjson")
     vlib.write_ndjson(scn_file, [scn])
